@@ -135,9 +135,12 @@ pub fn run(kv: &HashMap<String, String>) -> i32 {
                 peers.get_state(&peer).unwrap()
             };
             let from_genesis = !with_prove_state && rng.gen_bool(0.2);
+            // the from-genesis request (second turn of the long-fork detection) for a last header whose NUMBER is the
+            // row's block count: it spans exactly the row's blocks from the genesis block and is judged like any other
+            let last_vh_g = verifiable(blocks, &last_td, rep + 2000);
             let res = guard_val(|| {
                 if from_genesis {
-                    protocol.build_prove_request_content_from_genesis(&last_vh)
+                    protocol.build_prove_request_content_from_genesis(&last_vh_g)
                 } else {
                     protocol.build_prove_request_content(&state, &last_vh)
                 }
@@ -188,7 +191,7 @@ pub fn run(kv: &HashMap<String, String>) -> i32 {
                         "startTd": rank(&exp_start_td), "lastTd": rank(&last_td), "bnd": rank(&bnd),
                         "ds": ds.iter().map(|d| rank(d)).collect::<Vec<_>>(),
                         "small": small && !from_genesis,
-                        "startNum": if small { start_num } else { 0 }, "lastNum": if small { last_num } else { 0 },
+                        "startNum": if from_genesis { 0 } else if small { start_num } else { 0 }, "lastNum": if from_genesis { 0 } else if small { last_num } else { 0 },
                         "lastN": if small { last_n } else { 0 },
                         "stored": if from_genesis { vec![] } else { stored.iter().map(|h| h.number()).collect::<Vec<_>>() },
                         "reqStartIdx": idx, "reqStartNumOk": num_ok,
@@ -197,10 +200,8 @@ pub fn run(kv: &HashMap<String, String>) -> i32 {
                     })
                 }
             };
-            if !from_genesis {
-                emit(json!({"ev": "Req", "sc": format!("sampling-{}", ri), "a": a}), &mut out);
-                lines += 1;
-            }
+            emit(json!({"ev": "Req", "sc": format!("sampling-{}", ri), "a": a}), &mut out);
+            lines += 1;
             // the must-refuse cases for the same parameters: start above last in difficulty / not below in number
             if rep == 0 {
                 let higher = verifiable(start_num, &(&last_td + 1u32), 5);
